@@ -659,6 +659,17 @@ def mon_C17(ctx, k, sc, tr, stats):
                 ctx.violation("C17.leaves_iff", "step %d: cells drawing a destination %s, cells meeting the departure rule %s" %
                               (step, [e.split(":")[1:3] for e in evs], leaving_cells), sc.text)
                 return
+            # the destination is drawn by the NATURAL kernel (rescaled): for the deterministic
+            # neighbour kernel that is the adjacent cell in the natural direction
+            if sc.kv["kernel"][0] == "deterministic-neighbor":
+                dr, dc = {"N": (-1, 0), "NE": (-1, 1), "E": (0, 1), "SE": (1, 1), "S": (1, 0), "SW": (1, -1), "W": (0, -1), "NW": (-1, -1)}[sc.kv["kernel"][1]]
+                for e in evs:
+                    _, r, c, tr_, tc = e.split(":")
+                    stats["neighbour_destinations"] = stats.get("neighbour_destinations", 0) + 1
+                    if (int(tr_), int(tc)) != (int(r) + dr, int(c) + dc):
+                        ctx.violation("C17.overpopulation.destination_kernel", "step %d: pests leaving (%s,%s) were sent to (%s,%s); the natural kernel is the deterministic neighbour kernel towards %s" %
+                                      (step, r, c, tr_, tc, sc.kv["kernel"][1]), sc.text)
+                        return
             for e in evs:
                 _, r, c, tr_, tc = e.split(":")
                 i = int(r) * sc.cols + int(c)
